@@ -6,7 +6,8 @@ From Chiri Require Import Base.Bytes Base.Res Model.Finders Model.Format Spec.Ra
 
 (** Exact formula for the block formatter between the two seams of an unwrapped element:
     ofs = the indentation of the head seam's line (the column of the opening tag) when only blanks
-    precede the seam on its line, else 0; the first body line is the line after the seam's line;
+    precede the seam on its line (back to a line break, or back to the start of the file: then the
+    offset is the seam's position itself), else 0; the first body line is the line after the seam's line;
     len = (its leading blanks) - ofs, never negative; every body line that ends before the closing
     seam and has ib leading blanks loses exactly the bytes [ls + min ofs ib, ls + min (ofs+len) ib):
     i.e. min len (ib - ofs) blanks (0 if ib <= ofs), never anything left of the tag's column. *)
@@ -14,7 +15,10 @@ Theorem C12_dedent_formula :
   forall s start_pos end_pos,
     wf_utf8 s = true ->
     block_indent_remover s start_pos end_pos =
-    Ok (let ofs := match find_prev_lb s start_pos true with Some p => start_pos - p - 1 | None => 0 end in
+    Ok (let ofs := match find_prev_lb s start_pos true with
+                     | Some p => start_pos - p - 1
+                     | None => if all_blank_before s start_pos then start_pos else 0
+                     end in
         let first := match find_next_lb s start_pos false with Some p => S p | None => length s end in
         let len := leading_blanks (skipn first s) - ofs in
         dedent_lines (S (length s)) s end_pos first ofs len).
@@ -29,6 +33,25 @@ Theorem C12_offset_is_the_tag_column :
     (forall i b, p < i -> i < start_pos -> nth_error s i = Some b -> is_blank b = true).
 Proof. exact indent_offset_spec. Qed.
 Print Assumptions C12_offset_is_the_tag_column.
+
+(** The first line of the file: when only blanks stand in front of the seam, no line break is found
+    and the offset is the seam's position (the number of those blanks, the tag's column).  Before the
+    repair of the block formatter the offset was 0 there. *)
+Theorem C12_offset_on_the_first_line :
+  forall s start_pos end_pos,
+    wf_utf8 s = true -> all_blank_before s start_pos = true ->
+    find_prev_lb s start_pos true = None /\
+    block_indent_remover s start_pos end_pos =
+    Ok (let ofs := start_pos in
+        let first := match find_next_lb s start_pos false with Some p => S p | None => length s end in
+        let len := leading_blanks (skipn first s) - ofs in
+        dedent_lines (S (length s)) s end_pos first ofs len).
+Proof.
+  intros s a e Hs H. split.
+  - apply indent_offset_first_line. exact H.
+  - apply block_indent_exact_first_line; assumption.
+Qed.
+Print Assumptions C12_offset_on_the_first_line.
 
 (** Only spaces and tabs are consumed, they are leading blanks of their line, at most len of them,
     starting exactly min ofs (leading blanks) bytes after the line start. *)
@@ -53,8 +76,16 @@ Print Assumptions C12_block_ranges_safe.
 
 (** The pairing of the two seams at every nesting depth (pair indices consistent) is
     Properties/C02.v, C02_markers_are_the_extents (pairs_consistent).  Known finding KF1 (block on the
-    first line of the file with an indented tag) is Properties/C13.v, C13_known_finding_KF1: there the
-    offset is 0 because the start of the file is not accepted as a line start. *)
+    first line of the file with an indented tag) is repaired: Properties/C13.v,
+    C13_first_line_block_fixed, and C12_offset_on_the_first_line above (the offset is the tag's column
+    there too; before the repair it was 0 because the start of the file was not accepted as a line
+    start). *)
+
+(** Non-vacuity of the first-line case: "  <\n    a\n  >" with the seams 2 and 13 (the tag bytes
+    stand for themselves): offset 2, the body line loses 2 of its 4 blanks. *)
+Example C12_first_line_example :
+  block_indent_remover [32;32;60;10;32;32;32;32;97;10;32;32;62]%N 2 12 = Ok [(6, 8)].
+Proof. vm_compute. reflexivity. Qed.
 
 (** Non-vacuity: "foo\n\n  fuga\n  piyo\n\nbar" between the seams 4 and 19: [5,7) and [12,14). *)
 Example C12_example :
